@@ -55,12 +55,14 @@ def rec_str(r):
 
 def ev_key(e):
     return json.dumps([e["origin"], e["q"], e["t"], e["kind"], e["ce"], e["soa"],
-                       sorted(json.dumps(p, sort_keys=True) for p in e["proof"]), e["verdict"]])
+                       sorted(json.dumps(p, sort_keys=True) for p in e["proof"]), e["verdict"],
+                       sorted(json.dumps(r, sort_keys=True) for r in e.get("riders", []))])
 
 
 def describe(e):
     return {"q": nm(e["q"]), "t": e["t"], "claim": e["kind"] + (" from *." + nm(e["ce"]) if e["kind"] == "wild" else ""),
             "soa": nm(e["soa"]) if e["soa"] else None, "proof": [rec_str(r) for r in e["proof"]],
+            "answer_riders": [r["t"] + " expanded from *." + nm(r["ce"]) for r in e.get("riders", [])],
             "verdict": e["verdict"], "full_validator": e.get("full"), "origin": e["origin"]}
 
 
@@ -85,7 +87,8 @@ def classify(m):
         if not rules:
             out.append(("unclassified:" + vlib.digest(describe(e)), {"kind": e["kind"]}))
         for r in rules:
-            out.append(("unsound-accept", {"explained_by": r, "kind": e["kind"], "interior_star": interior_star(e)}))
+            out.append(("unsound-accept", {"explained_by": r, "kind": e["kind"], "interior_star": interior_star(e),
+                                           "riders": bool(e.get("riders"))}))
     if not j["complete"]:
         common = {"ent": j["ent"], "q_child_of_ce": j["qChildOfCe"], "uses_last": j["usesLast"], "soa": bool(e["soa"]),
                   "q_absent_proven": j["qAbsentProven"], "interior_star": interior_star(e)}
@@ -134,6 +137,7 @@ def run(res, tier, seed):
     traces = []
     r_forged_keys = set()
     total_cases = 0
+    n_rider_units = 0
     e2e_kinds = {}
     for (name, uni, qn, qt, mo, k) in gens:
         cfg_lines = ["SPECIFICATION GenSpec", "CONSTANTS"] + ["  " + c for c in COMMON] + [
@@ -165,6 +169,7 @@ def run(res, tier, seed):
         for v in vlib.read_ndjson(vpath):
             n += 1
             res.evaluations += v["evals"]
+            n_rider_units += v["rider_units"]
             if v["secure_sets"] or v["entailed_sets"]:
                 res.nontrivial.add(vlib.digest(v["input"]))
             if v["nbad"] > len(v["bad"]):
@@ -249,6 +254,9 @@ def run(res, tier, seed):
         "forged_events_distinct": len(forged),
     })
     # every disagreement the driver found against Gen's families must be confirmed by the monitor
+    res.extra["wildcard_claims_offered_with_riders(claim x rider option)"] = n_rider_units
+    if not n_rider_units:
+        raise vlib.ToolError("no wildcard claim was offered with a rider RRset (no zone with nested wildcards)")
     if not n_forged_full:
         raise vlib.ToolError("the expanded-NSEC fault was never injected (no zone with a wildcard reached the whole validator)")
     confirmed = {ev_key(m["event"]) for m in mism if m["event"]["origin"] == "forged"}
